@@ -102,10 +102,27 @@ theorem foldOut_filterUnit (m : Mode) : ∀ (units : List (UnitHdr × List Entry
     | panic w => rfl
     | diverge => rfl
 
-/-- `buildDeps` processes the records of all units in order -/
+/-- without root attributes `buildDepsFrom` is the plain fold over the units -/
+theorem buildDepsFrom_nil (m : Mode) : ∀ (units : List (UnitHdr × List Entry)) (d : Deps),
+    buildDepsFrom m d units [] = foldOut (filterUnit m) d units := by
+  intro units
+  induction units with
+  | nil => intro d; rfl
+  | cons ue units ih =>
+    intro d
+    simp only [buildDepsFrom, foldOut, List.headD_nil, List.tail_nil, requireRoot, List.flatMap_nil,
+      List.foldl_nil]
+    cases filterUnit m d ue with
+    | ok d' => exact ih d'
+    | err e => rfl
+    | panic w => rfl
+    | diverge => rfl
+
+/-- `buildDeps` (no root attributes) processes the records of all units in order -/
 theorem buildDeps_eq (m : Mode) (units : List (UnitHdr × List Entry)) :
-    buildDeps m units = foldOut (recordStep m) {} (records units) :=
-  foldOut_filterUnit m units {}
+    buildDeps m units = foldOut (recordStep m) {} (records units) := by
+  rw [buildDeps, buildDepsFrom_nil]
+  exact foldOut_filterUnit m units {}
 
 /-! ## one step, exactly -/
 
@@ -783,7 +800,7 @@ theorem buildDeps_total (m : Mode) (units : List (UnitHdr × List Entry))
     (hd : ((records units).map Rec.off).Nodup) : ∃ d, buildDeps m units = .ok d := by
   rw [records_off] at hd
   obtain ⟨d, h, _⟩ := foldOut_filterUnit_ok m units {} (by intro x _; rfl) hd
-  exact ⟨d, h⟩
+  exact ⟨d, by rw [buildDeps, buildDepsFrom_nil]; exact h⟩
 
 
 theorem records_mem (units : List (UnitHdr × List Entry)) (r : Rec) (hr : r ∈ records units) :
@@ -893,6 +910,282 @@ theorem convertUnits_links (ids : List Off) : ∀ (units : List (UnitHdr × List
               rw [h1', h2']; rfl
           rw [← h, h1, h2]; rfl
 
+
+
+/-! ## the references of the unit roots (fix f623d29): required, outside the graph -/
+
+/-- put a `required` prefix in front of a result computed from an empty `required` list -/
+def Deps.frame (req : List Off) (r : Deps) : Deps := ⟨r.edges, req ++ r.required⟩
+
+/-- `recordEntry` reads only the map and only appends to `required` -/
+theorem recordEntry_frame (m : Mode) (u : UnitHdr) (d : Deps) (e : Entry) (parent : Option Parent) :
+    recordEntry m u d e parent = (recordEntry m u ⟨d.edges, []⟩ e parent).map (Deps.frame d.required) := by
+  have fin : ∀ (edges : EdgeMap) (deps : List Off),
+      (do let d1 ← (⟨edges, d.required⟩ : Deps).addEntry m (u.base + e.off) deps
+          pure (if e.required then d1.requireEntry (u.base + e.off) else d1) : Out Deps) =
+      ((do let d1 ← (⟨edges, []⟩ : Deps).addEntry m (u.base + e.off) deps
+           pure (if e.required then d1.requireEntry (u.base + e.off) else d1) : Out Deps)).map
+        (Deps.frame d.required) := by
+    intro edges deps
+    simp only [Deps.addEntry]
+    by_cases hc : m = Mode.debug ∧ edges.contains (u.base + e.off) = true
+    · simp [hc, Out.map]
+    · simp only [hc, if_false, Out.bind_ok, Out.pure_eq, Out.map]
+      cases e.required <;> simp [Deps.frame, Deps.requireEntry]
+  simp only [recordEntry]
+  cases parent with
+  | none => exact fin d.edges _
+  | some p =>
+    simp only
+    by_cases hb : (parentAllowsChildEdge p.tag && hasBackEdge e.tag e.hasDecl) = true
+    · simp only [hb, if_true, Deps.addEdge]
+      by_cases hc : d.edges.contains (u.base + p.off) = true
+      · simp only [hc, if_true, Out.bind_ok]
+        exact fin _ _
+      · simp [hc, Out.map]
+    · simp only [hb]
+      exact fin d.edges _
+
+
+theorem frame_frame (a b : List Off) (r : Deps) : Deps.frame a (Deps.frame b r) = Deps.frame (a ++ b) r := by
+  simp [Deps.frame, List.append_assoc]
+
+theorem Out.map_map {α β γ : Type} (f : α → β) (g : β → γ) (x : Out α) : (x.map f).map g = x.map (g ∘ f) := by
+  cases x <;> rfl
+
+theorem foldOut_readEntry_frame (m : Mode) (u : UnitHdr) : ∀ (es : List Entry) (d : Deps) (st : List Parent),
+    foldOut (readEntry m u) (d, st) es =
+      (foldOut (readEntry m u) (⟨d.edges, []⟩, st) es).map (fun r => (Deps.frame d.required r.1, r.2)) := by
+  intro es
+  induction es with
+  | nil => intro d st; simp [foldOut, Out.map, Deps.frame]
+  | cons e es ih =>
+    intro d st
+    simp only [foldOut, readEntry]
+    rw [recordEntry_frame]
+    cases hr : recordEntry m u ⟨d.edges, []⟩ e (popParents e.depth st).head? with
+    | ok r =>
+      simp only [Out.map]
+      have e1 : foldOut (readEntry m u) (Deps.frame d.required r, pushParent e (popParents e.depth st)) es =
+          (foldOut (readEntry m u) (⟨r.edges, []⟩, pushParent e (popParents e.depth st)) es).map
+            (fun x => (Deps.frame (d.required ++ r.required) x.1, x.2)) := ih (Deps.frame d.required r) _
+      have e2 := ih r (pushParent e (popParents e.depth st))
+      rw [e1, e2]
+      generalize foldOut (readEntry m u) (⟨r.edges, []⟩, pushParent e (popParents e.depth st)) es = X
+      cases X <;> simp [Out.map, frame_frame]
+    | err e => rfl
+    | panic w => rfl
+    | diverge => rfl
+
+theorem filterUnit_frame (m : Mode) (d : Deps) (ue : UnitHdr × List Entry) :
+    filterUnit m d ue = (filterUnit m ⟨d.edges, []⟩ ue).map (Deps.frame d.required) := by
+  simp only [filterUnit]
+  rw [foldOut_readEntry_frame, Out.map_map, Out.map_map]
+  rfl
+
+theorem requireRoot_spec (u : UnitHdr) (ra : List AttrRef) (d : Deps) :
+    (requireRoot u ra d).edges = d.edges ∧
+    (requireRoot u ra d).required = d.required ++ ra.flatMap (attrDeps u) := by
+  simp only [requireRoot]
+  generalize ra.flatMap (attrDeps u) = l
+  induction l generalizing d with
+  | nil => simp
+  | cons x l ih =>
+    simp only [List.foldl_cons]
+    obtain ⟨h1, h2⟩ := ih (d.requireEntry x)
+    exact ⟨h1, by rw [h2]; simp [Deps.requireEntry]⟩
+
+/-- the offsets required on behalf of the unit roots -/
+def rootReqs : List (UnitHdr × List Entry) → List (List AttrRef) → List Off
+  | [], _ => []
+  | ue :: rest, ras => (ras.headD []).flatMap (attrDeps ue.1) ++ rootReqs rest ras.tail
+
+theorem rootReqs_nil : ∀ units, rootReqs units [] = [] := by
+  intro units
+  induction units with
+  | nil => rfl
+  | cons ue units ih => simp [rootReqs, ih]
+
+/-- the filter pass with root attributes = the pass without them, plus the root references in
+`required`: same map, same outcome kind -/
+theorem buildDepsFrom_roots (m : Mode) : ∀ (units : List (UnitHdr × List Entry)) (ras : List (List AttrRef)) (d : Deps),
+    match buildDepsFrom m ⟨d.edges, []⟩ units [] with
+    | .ok d0 => ∃ d', buildDepsFrom m d units ras = .ok d' ∧ d'.edges = d0.edges ∧
+        ∀ x, x ∈ d'.required ↔ (x ∈ d.required ∨ x ∈ d0.required ∨ x ∈ rootReqs units ras)
+    | .err e => buildDepsFrom m d units ras = .err e
+    | .panic w => buildDepsFrom m d units ras = .panic w
+    | .diverge => buildDepsFrom m d units ras = .diverge := by
+  intro units
+  induction units with
+  | nil => intro ras d; exact ⟨d, rfl, rfl, by simp [rootReqs]⟩
+  | cons ue units ih =>
+    intro ras d
+    obtain ⟨hre, hrr⟩ := requireRoot_spec ue.1 (ras.headD []) d
+    have hroot0 : requireRoot ue.1 (([] : List (List AttrRef)).headD []) ⟨d.edges, []⟩ = ⟨d.edges, []⟩ := by
+      simp [requireRoot]
+    simp only [buildDepsFrom, hroot0, List.tail_nil]
+    rw [filterUnit_frame m (requireRoot ue.1 (ras.headD []) d), hre]
+    cases hF : filterUnit m ⟨d.edges, []⟩ ue with
+    | ok r =>
+      simp only [Out.map]
+      have h1 := ih ras.tail (Deps.frame (requireRoot ue.1 (ras.headD []) d).required r)
+      have h2 := ih [] r
+      simp only [Deps.frame] at h1
+      cases hB : buildDepsFrom m ⟨r.edges, []⟩ units [] with
+      | ok b =>
+        rw [hB] at h1 h2
+        obtain ⟨d', hd', he', hm'⟩ := h1
+        obtain ⟨d0, hd0, he0, hm0⟩ := h2
+        rw [hd0]
+        refine ⟨d', hd', by rw [he', he0], ?_⟩
+        intro x
+        rw [hm', hm0, hrr]
+        simp only [rootReqs, rootReqs_nil, List.mem_append, List.not_mem_nil, or_false]
+        constructor
+        · rintro (((h | h) | h) | h | h)
+          · exact Or.inl h
+          · exact Or.inr (Or.inr (Or.inl h))
+          · exact Or.inr (Or.inl (Or.inl h))
+          · exact Or.inr (Or.inl (Or.inr h))
+          · exact Or.inr (Or.inr (Or.inr h))
+        · rintro (h | (h | h) | h | h)
+          · exact Or.inl (Or.inl (Or.inl h))
+          · exact Or.inl (Or.inr h)
+          · exact Or.inr (Or.inl h)
+          · exact Or.inl (Or.inl (Or.inr h))
+          · exact Or.inr (Or.inr h)
+      | err e => rw [hB] at h1 h2; rw [h2]; exact h1
+      | panic w => rw [hB] at h1 h2; rw [h2]; exact h1
+      | diverge => rw [hB] at h1 h2; rw [h2]; exact h1
+    | err e => rfl
+    | panic w => rfl
+    | diverge => rfl
+
+
+/-- the filter pass with root attributes: the graph of the pass without them, and `required`
+extended by the root references -/
+theorem buildDeps_roots (m : Mode) (units : List (UnitHdr × List Entry)) (ras : List (List AttrRef))
+    (d : Deps) (h : buildDeps m units ras = .ok d) :
+    ∃ d0, buildDeps m units = .ok d0 ∧ d.edges = d0.edges ∧
+      ∀ x, x ∈ d.required ↔ (x ∈ d0.required ∨ x ∈ rootReqs units ras) := by
+  have hr := buildDepsFrom_roots m units ras {}
+  simp only [buildDeps] at h ⊢
+  cases h0 : buildDepsFrom m ({} : Deps) units [] with
+  | ok d0 =>
+    have h0' : buildDepsFrom m ⟨({} : Deps).edges, []⟩ units [] = .ok d0 := h0
+    rw [h0'] at hr
+    obtain ⟨d', hd', he, hm⟩ := hr
+    rw [hd'] at h
+    simp only [Out.ok.injEq] at h
+    subst h
+    exact ⟨d0, rfl, he, fun x => by rw [hm x]; simp⟩
+  | err e =>
+    have h0' : buildDepsFrom m ⟨({} : Deps).edges, []⟩ units [] = .err e := h0
+    rw [h0'] at hr; rw [hr] at h; cases h
+  | panic w =>
+    have h0' : buildDepsFrom m ⟨({} : Deps).edges, []⟩ units [] = .panic w := h0
+    rw [h0'] at hr; rw [hr] at h; cases h
+  | diverge =>
+    have h0' : buildDepsFrom m ⟨({} : Deps).edges, []⟩ units [] = .diverge := h0
+    rw [h0'] at hr; rw [hr] at h; cases h
+
+/-- the filter pass never panics on a section with distinct DIE offsets, whatever the roots reference -/
+theorem buildDeps_total_roots (m : Mode) (units : List (UnitHdr × List Entry)) (ras : List (List AttrRef))
+    (hd : ((records units).map Rec.off).Nodup) : ∃ d, buildDeps m units ras = .ok d := by
+  obtain ⟨d0, h0⟩ := buildDeps_total m units hd
+  have hr := buildDepsFrom_roots m units ras {}
+  have h0' : buildDepsFrom m ⟨({} : Deps).edges, []⟩ units [] = .ok d0 := h0
+  rw [h0'] at hr
+  obtain ⟨d', hd', _, _⟩ := hr
+  exact ⟨d', hd'⟩
+
+/-- every reference recorded for the root of the `i`-th unit is in `rootReqs` -/
+theorem mem_rootReqs : ∀ (units : List (UnitHdr × List Entry)) (ras : List (List AttrRef)) (i : Nat)
+    (ue : UnitHdr × List Entry) (ra : List AttrRef), units[i]? = some ue → ras[i]? = some ra →
+    ∀ a, a ∈ ra → ∀ t, t ∈ attrDeps ue.1 a → t ∈ rootReqs units ras := by
+  intro units
+  induction units with
+  | nil => intro ras i ue ra h; simp at h
+  | cons u0 units ih =>
+    intro ras i ue ra hu hr a ha t ht
+    cases ras with
+    | nil => simp at hr
+    | cons r0 ras =>
+      cases i with
+      | zero =>
+        simp only [List.getElem?_cons_zero, Option.some.injEq] at hu hr
+        subst hu; subst hr
+        simp only [rootReqs, List.headD_cons, List.mem_append]
+        exact Or.inl (List.mem_flatMap.2 ⟨a, ha, ht⟩)
+      | succ i =>
+        simp only [List.getElem?_cons_succ] at hu hr
+        simp only [rootReqs, List.tail_cons, List.mem_append]
+        exact Or.inr (ih ras i ue ra hu hr a ha t ht)
+
+/-- if every recorded target of an attribute that resolves in `ids` also resolves in `ids'`, then an
+attribute that converts with `ids` converts with `ids'` (a reference nested deeper than
+`MAX_ENTRY_VALUE_DEPTH` is not recorded, but it makes the conversion fail with either table) -/
+theorem convAttr_keep (ids ids' : List Off) (u : UnitHdr) (a : AttrRef)
+    (keep : ∀ t, t ∈ attrDeps u a → t ∈ ids → t ∈ ids')
+    (hfull : convAttr ids u a = none) : convAttr ids' u a = none := by
+  have hu : ∀ val, (∀ t, t ∈ (if u.inBounds val then [u.base + val] else []) → t ∈ attrDeps u a) →
+      convUnitRef ids u val = none → convUnitRef ids' u val = none := by
+    intro val hsub h
+    rw [convUnitRef_none] at h ⊢
+    exact ⟨h.1, keep _ (hsub _ (by simp [h.1])) h.2⟩
+  have hi : ∀ val, val ∈ attrDeps u a →
+      convInfoRef ids val = none → convInfoRef ids' val = none := by
+    intro val hsub h
+    rw [convInfoRef_none] at h ⊢
+    exact keep _ hsub h
+  have hop : ∀ (ops : List OpRef),
+      (∀ o, o ∈ ops → ∀ t, t ∈ opDeps u o → t ∈ attrDeps u a) →
+      firstErr (ops.map (convOp ids u)) = none →
+      firstErr (ops.map (convOp ids' u)) = none := by
+    intro ops hsub h
+    rw [firstErr_none] at h ⊢
+    intro x hx
+    simp only [List.mem_map] at hx
+    obtain ⟨o, ho, hx⟩ := hx
+    have h1 := h (convOp ids u o) (List.mem_map.2 ⟨o, ho, rfl⟩)
+    subst hx
+    cases o with
+    | unitRef val => exact hu val (fun t ht => hsub _ ho t (by simpa [opDeps] using ht)) h1
+    | infoRef val => exact hi val (hsub _ ho val (by simp [opDeps])) h1
+    | implicitRef val => exact hi val (hsub _ ho val (by simp [opDeps])) h1
+    | nestedUnitRef k val =>
+      -- a reference nested deeper than the bound makes the unfiltered conversion fail
+      simp only [convOp] at h1 ⊢
+      by_cases hk : scansDepth k = true
+      · simp only [hk, if_true] at h1 ⊢
+        exact hu val (fun t ht => hsub _ ho t (by
+          simp only [opDeps, hk, Bool.true_and]; exact ht)) h1
+      · simp [hk] at h1
+    | nestedInfoRef k val =>
+      simp only [convOp] at h1 ⊢
+      by_cases hk : scansDepth k = true
+      · simp only [hk, if_true] at h1 ⊢
+        exact hi val (hsub _ ho val (by simp [opDeps, hk])) h1
+      · simp [hk] at h1
+    | nestedPlain k => exact h1
+  cases a with
+  | unitRef val => exact hu val (fun t ht => by simpa [attrDeps] using ht) hfull
+  | infoRef val => exact hi val (by simp [attrDeps]) hfull
+  | expr ops =>
+    simp only [convAttr] at hfull ⊢
+    exact hop ops (fun o ho t ht => by
+      simp only [attrDeps]; exact List.mem_flatMap.2 ⟨o, ho, ht⟩) hfull
+  | loclist locs =>
+    simp only [convAttr] at hfull ⊢
+    rw [firstErr_none] at hfull ⊢
+    intro x hx
+    simp only [List.mem_map] at hx
+    obtain ⟨l, hl, hx⟩ := hx
+    subst hx
+    refine hop l.2 ?_ (hfull _ (List.mem_map.2 ⟨l, hl, rfl⟩))
+    intro o ho t ht
+    simp only [attrDeps]
+    exact List.mem_flatMap.2 ⟨l, hl, List.mem_flatMap.2 ⟨o, ho, ht⟩⟩
 
 
 end Gimli.Filter
